@@ -112,3 +112,28 @@ Proof.
   intros Hn. unfold uuid_str. rewrite parse_dashed by (try apply to_hex_plain; apply to_hex_length).
   rewrite (of_to_hex 32 n 0) by (change (16 ^ Z.of_nat 32) with (2 ^ 128); exact Hn). f_equal.
 Qed.
+
+(* ---------- Decimal(int): the value built is the integer ---------- *)
+From Coq Require Import QArith.
+From KV Require Import Model.Validator Model.Sem.
+
+Lemma dec_of_int_num z : exists q, num_of (dec_of_int z) = Some (NumFin q) /\ Qeq q (inject_Z z).
+Proof.
+  unfold dec_of_int. cbn [num_of dec_num]. eexists. split; [reflexivity|].
+  unfold pow_q. cbn [Z.leb Z.compare Z.pow]. unfold sgn_q.
+  destruct (z <? 0)%Z eqn:Ez; [apply Z.ltb_lt in Ez | apply Z.ltb_ge in Ez];
+    unfold Qeq, Qopp, Qmult, inject_Z; cbn [Qnum Qden Z.pow_pos Pos.iter Pos.mul]; lia.
+Qed.
+
+Theorem decimal_of_int E :
+  (forall z, oracle E OkDecimal (VInt z) = Some (dec_of_int z)) ->
+  forall z fuel m, run E m (S fuel) (Scalar KDecimal (Some CoDecimal) [] [] []) (VInt z) = OValid (dec_of_int z).
+Proof.
+  intros Ho z fuel m. cbn [run step]. unfold scalar_body.
+  assert (Hg : mode_eqb m Sync && nonempty (@nil apredicate) = false) by (destruct m; reflexivity).
+  rewrite Hg. unfold gate. cbn [coerce_apply].
+  change (exact_type (VInt z) TDecimal) with false. cbv iota.
+  change (isinstance (ckind E) (VInt z) TStr) with false.
+  change (isinstance (ckind E) (VInt z) TInt) with true. cbn [orb]. rewrite Ho.
+  cbn [procs_apply]. unfold all_failing. cbn [failing_preds pbind]. destruct m; reflexivity.
+Qed.
